@@ -13,6 +13,9 @@ from typing import overload
 
 import pendulum
 
+from pendulum.constants import HOURS_PER_DAY
+from pendulum.constants import MINUTES_PER_HOUR
+from pendulum.constants import SECS_PER_DAY
 from pendulum.constants import SECS_PER_HOUR
 from pendulum.constants import SECS_PER_MIN
 from pendulum.constants import USECS_PER_SEC
@@ -103,6 +106,13 @@ class Time(FormattableMixin, time):
         """
         from pendulum.datetime import DateTime
 
+        # Whole days do not change a time of day, they would only push
+        # the anchor date out of the supported range of years
+        hours %= HOURS_PER_DAY
+        minutes %= HOURS_PER_DAY * MINUTES_PER_HOUR
+        seconds %= SECS_PER_DAY
+        microseconds %= SECS_PER_DAY * USECS_PER_SEC
+
         return (
             DateTime.EPOCH.at(self.hour, self.minute, self.second, self.microsecond)
             .add(
@@ -132,6 +142,13 @@ class Time(FormattableMixin, time):
         :rtype: Time
         """
         from pendulum.datetime import DateTime
+
+        # Whole days do not change a time of day, they would only push
+        # the anchor date out of the supported range of years
+        hours %= HOURS_PER_DAY
+        minutes %= HOURS_PER_DAY * MINUTES_PER_HOUR
+        seconds %= SECS_PER_DAY
+        microseconds %= SECS_PER_DAY * USECS_PER_SEC
 
         return (
             DateTime.EPOCH.at(self.hour, self.minute, self.second, self.microsecond)
